@@ -8,7 +8,8 @@
 //!
 //! ops:  `case <k>` · `spawn <i> <name|->` · `spawnfail <i> <name|->` (pre_start fails) ·
 //!       `collide <i> <name|-> <j>` (the new cell is handed the id of the live actor `j`) ·
-//!       `mon <i>` (spawn a listener actor, not yet subscribed) · `monitor <i>` · `demonitor <i>` ·
+//!       `spawntl` / `spawntlfail` / `collidetl` (the same through `ThreadLocalActor::spawn`: the twin constructor
+//!       `thread_local/inner.rs::new_thread_local`) · `mon <i>` (spawn a listener actor, not yet subscribed) · `monitor <i>` · `demonitor <i>` ·
 //!       `stop <i>` · `kill <i>` ·
 //!       `wina <i> <name|->` (the spawn runs on a helper OS thread and is parked at the schedule point
 //!       `new.reg_pid`, between the two registry operations of `ActorCell::new`; res=win, or dup if it never got
@@ -55,6 +56,40 @@ impl Actor for Node {
     }
 }
 
+/// the same actor in the shape the thread-local spawner wants; `thread_local/inner.rs::new_thread_local` is a
+/// textual twin of `ActorCell::new` (name insert, pid insert, rollback)
+#[derive(Default)]
+struct TlNode;
+
+impl Actor for TlNode {
+    type Msg = ();
+    type State = ();
+    type Arguments = bool;
+    async fn pre_start(&self, _: ActorRef<()>, fail: bool) -> Result<(), ActorProcessingErr> {
+        if fail {
+            Err("refused".into())
+        } else {
+            Ok(())
+        }
+    }
+    async fn handle_supervisor_evt(&self, _: ActorRef<()>, _: SupervisionEvent, _: &mut ()) -> Result<(), ActorProcessingErr> {
+        Ok(())
+    }
+}
+
+fn tl_spawner() -> ractor::thread_local::ThreadLocalActorSpawner {
+    static S: std::sync::OnceLock<ractor::thread_local::ThreadLocalActorSpawner> = std::sync::OnceLock::new();
+    S.get_or_init(ractor::thread_local::ThreadLocalActorSpawner::new).clone()
+}
+
+/// thread-local actors live on the spawner's OS thread with a real clock: wait (real time) until `p`
+fn settle(p: impl Fn() -> bool) {
+    let t0 = std::time::Instant::now();
+    while !p() && t0.elapsed() < Duration::from_secs(5) {
+        std::thread::sleep(Duration::from_micros(50));
+    }
+}
+
 #[derive(Default)]
 struct World {
     /// index → cell of every successfully constructed actor
@@ -67,6 +102,8 @@ struct World {
     /// an `ActorCell::new` parked between its name insert and its pid insert, on a helper OS thread
     win: Option<Win>,
     helpers: Vec<std::thread::JoinHandle<()>>,
+    /// indices of thread-local actors (never subscribed as listeners: their inbox is handled on another thread)
+    tl: Vec<usize>,
 }
 
 struct Win {
@@ -141,14 +178,19 @@ impl World {
         for h in std::mem::take(&mut self.helpers) {
             let _ = h.join();
         }
-        for (_, c) in std::mem::take(&mut self.cells) {
+        let tl = std::mem::take(&mut self.tl);
+        for (i, c) in std::mem::take(&mut self.cells) {
             registry::pid_registry::demonitor(c.get_id());
             c.kill();
+            if tl.contains(&i) {
+                settle(|| (c.get_status() as u8) == 6);
+            }
         }
         quiesce().await;
         quiesce().await;
         self.evs.lock().unwrap().clear();
         self.failed_ids.clear();
+        self.tl.clear();
         self.next = 0;
     }
 
@@ -173,6 +215,34 @@ impl World {
         }
     }
 
+    async fn spawn_tl(&mut self, i: usize, name: Option<u64>, fail: bool, collide: bool) -> String {
+        use ractor::thread_local::ThreadLocalActor;
+        let will_get = ActorCell::verif_set_next_local_id(u64::MAX);
+        let r = <TlNode as ThreadLocalActor>::spawn(name.map(|n| nm(self.case, n)), fail, tl_spawner()).await;
+        self.next = self.next.max(i + 1);
+        if r.is_err() && !collide {
+            self.failed_ids.insert(i, ActorId::Local(will_get));
+        }
+        match r {
+            Ok((a, _)) => {
+                let c = a.get_cell();
+                settle(|| (c.get_status() as u8) >= 2);
+                self.cells.insert(i, c);
+                self.tl.push(i);
+                "ok".into()
+            }
+            Err(SpawnErr::ActorAlreadyRegistered(s)) => {
+                if s.contains("PID") || s.contains("alive") { "pid".into() } else { "dup".into() }
+            }
+            Err(SpawnErr::StartupFailed(_)) => {
+                // the failed cell's cleanup runs on the spawner's thread
+                settle(|| registry::where_is_pid(ActorId::Local(will_get)).is_none());
+                "start".into()
+            }
+            Err(_) => "other".into(),
+        }
+    }
+
     async fn exec(&mut self, log: &mut Log, st: &mut Stats, op: &str) {
         let ws: Vec<&str> = op.split_whitespace().collect();
         let name = |s: &str| if s == "-" { None } else { s.parse::<u64>().ok() };
@@ -187,6 +257,20 @@ impl World {
                 self.spawn(ws[1].parse().unwrap(), n, false, false).await
             }
             "spawnfail" => self.spawn(ws[1].parse().unwrap(), name(ws[2]), true, false).await,
+            "spawntl" => self.spawn_tl(ws[1].parse().unwrap(), name(ws[2]), false, false).await,
+            "spawntlfail" => self.spawn_tl(ws[1].parse().unwrap(), name(ws[2]), true, false).await,
+            "collidetl" => {
+                let j: usize = ws[3].parse().unwrap();
+                match self.cells.get(&j).filter(|c| (c.get_status() as u8) < 5).map(|c| c.get_id()) {
+                    Some(ActorId::Local(pid)) => {
+                        let keep = ActorCell::verif_set_next_local_id(pid);
+                        let r = self.spawn_tl(ws[1].parse().unwrap(), name(ws[2]), false, true).await;
+                        ActorCell::verif_set_next_local_id(keep.max(pid + 1));
+                        r
+                    }
+                    _ => "skip".into(),
+                }
+            }
             "collide" => {
                 let j: usize = ws[3].parse().unwrap();
                 // only against an actor that is in the pid table (alive); otherwise nothing is done
@@ -202,7 +286,8 @@ impl World {
             }
             "monitor" => {
                 // (subscribing a dead actor would leave a listener behind that nobody ever removes)
-                match self.cells.get(&ws[1].parse().unwrap()).filter(|c| (c.get_status() as u8) < 5) {
+                let i: usize = ws[1].parse().unwrap();
+                match self.cells.get(&i).filter(|c| (c.get_status() as u8) < 5 && !self.tl.contains(&i)) {
                     Some(c) => {
                         registry::pid_registry::monitor(c.clone());
                         "unit".into()
@@ -294,15 +379,17 @@ impl World {
                 }
                 "unit".into()
             }
-            "stop" => {
-                if let Some(c) = self.cells.get(&ws[1].parse().unwrap()) {
-                    c.stop(None);
-                }
-                "unit".into()
-            }
-            "kill" => {
-                if let Some(c) = self.cells.get(&ws[1].parse().unwrap()) {
-                    c.kill();
+            "stop" | "kill" => {
+                let i: usize = ws[1].parse().unwrap();
+                if let Some(c) = self.cells.get(&i) {
+                    if ws[0] == "stop" {
+                        c.stop(None);
+                    } else {
+                        c.kill();
+                    }
+                    if self.tl.contains(&i) {
+                        settle(|| (c.get_status() as u8) == 6);
+                    }
                 }
                 "unit".into()
             }
@@ -355,8 +442,21 @@ async fn gen_case(w: &mut World, log: &mut Log, st: &mut Stats, rng: &mut Rng, k
             live.push(i);
             i += 1;
             s
-        } else if r < 30 {
+        } else if r < 26 {
             let s = format!("spawnfail {i} {}", nmx(rng));
+            i += 1;
+            s
+        } else if r < 30 {
+            // the thread-local twin of the constructor
+            let k = rng.below(4);
+            let s = if k == 0 {
+                format!("spawntlfail {i} {}", nmx(rng))
+            } else if k == 1 {
+                format!("collidetl {i} {} {}", nmx(rng), rng.pick(&live))
+            } else {
+                live.push(i);
+                format!("spawntl {i} {}", nmx(rng))
+            };
             i += 1;
             s
         } else if r < 45 {
@@ -398,6 +498,8 @@ const FIXED: &[&[&str]] = &[
     // inside the window of `new`: the name is taken (a same-name spawn fails), the pid is not there yet, no event yet
     &["mon 0", "monitor 0", "wina 1 2", "spawn 2 2", "winb 1", "winc 1", "spawn 3 2"],
     &["spawn 0 1", "wina 1 1", "winb 1", "wina 2 -", "mon 3", "winb 2", "winc 2"],
+    // the thread-local twin: duplicate name, forced pid collision + rollback, failed start, exit releases the name
+    &["mon 0", "monitor 0", "spawntl 1 0", "spawntl 2 0", "collidetl 3 1 1", "spawn 4 1", "spawntlfail 5 2", "stop 1", "spawntl 6 0", "kill 6"],
 ];
 
 fn main() {
